@@ -245,9 +245,14 @@ def gen_hash_cfg(rng, fam):
     return cfg
 
 
-def make_hash(cfg, data0=None):
+def make_hash(cfg, data0=None, key_obj=None):
+    """``key_obj``: pass this object as the key instead of the bytes described by cfg (callers that own a mutable key buffer)."""
     fam = cfg["fam"]
     kw = {}
+    if key_obj is not None:
+        _D = lambda d: key_obj
+    else:
+        _D = D
     if fam in MD_HASHES:
         if fam == "SHA512":
             return mod("SHA512").new(data=data0, truncate=cfg.get("truncate"))
@@ -259,7 +264,7 @@ def make_hash(cfg, data0=None):
     if fam in ("BLAKE2b", "BLAKE2s"):
         kw = dict(digest_bytes=cfg["digest_bytes"], update_after_digest=cfg.get("uad", False))
         if cfg.get("key"):
-            kw["key"] = D(cfg["key"])
+            kw["key"] = _D(cfg["key"])
         if data0 is not None:
             kw["data"] = data0
         return mod(fam).new(**kw)
@@ -277,18 +282,18 @@ def make_hash(cfg, data0=None):
     if fam in ("TupleHash128", "TupleHash256"):
         return mod(fam).new(digest_bytes=cfg["digest_bytes"], custom=D(cfg["custom"]))
     if fam == "HMAC":
-        return mod("HMAC").new(D(cfg["key"]), msg=data0 if data0 is not None else b"", digestmod=mod(cfg["digestmod"]))
+        return mod("HMAC").new(_D(cfg["key"]), msg=data0 if data0 is not None else b"", digestmod=mod(cfg["digestmod"]))
     if fam == "CMAC":
-        key = cipher_key({"alg": cfg["alg"], "key": cfg["key"]})
+        key = cipher_key({"alg": cfg["alg"], "key": cfg["key"]}) if key_obj is None else key_obj
         return mod("CMAC").new(key, msg=data0, ciphermod=mod(cfg["alg"]), mac_len=cfg["mac_len"],
                                update_after_digest=cfg.get("uad", False))
     if fam in ("KMAC128", "KMAC256"):
-        kw = dict(key=D(cfg["key"]), mac_len=cfg["mac_len"], custom=D(cfg["custom"]))
+        kw = dict(key=_D(cfg["key"]), mac_len=cfg["mac_len"], custom=D(cfg["custom"]))
         if data0 is not None:
             kw["data"] = data0
         return mod(fam).new(**kw)
     if fam == "Poly1305":
-        kw = dict(key=D(cfg["key"]), cipher=mod(cfg["cipher"]), nonce=D(cfg["nonce"]))
+        kw = dict(key=_D(cfg["key"]), cipher=mod(cfg["cipher"]), nonce=D(cfg["nonce"]))
         if data0 is not None:
             kw["data"] = data0
         return mod("Poly1305").new(**kw)
